@@ -105,8 +105,12 @@ func (m *Manager) SetBirthday(ns walletdb.ReadWriteBucket,
 	m.mtx.Lock()
 	defer m.mtx.Unlock()
 
+	if err := putBirthday(ns, birthday); err != nil {
+		return err
+	}
+
 	m.birthday = birthday
-	return putBirthday(ns, birthday)
+	return nil
 }
 
 // BirthdayBlock returns the birthday block, or earliest block a key could have
